@@ -23,10 +23,6 @@ def showKey : Option (Nat × Nat) → String
   | none => "none"
   | some (a, b) => s!"ok {a} {b}"
 
-/-- Does concrete key `k` match the pattern (with `None` wildcards)? -/
-def keyMatches (p0 p1 : Option Nat) (k : Nat × Nat) : Bool :=
-  (p0.all (· == k.1)) && (p1.all (· == k.2))
-
 def stepCodec (toks : List String) : String :=
   match toks with
   | ["pack", c, a0, a1, hex] =>
@@ -88,6 +84,14 @@ def stepStore (st : DState) (toks : List String) : DState × String :=
     | some a0, some a1 => (st, s!"ok {st.store.contains a0 a1}")
     | _, _ => (st, "bad-op")
   | ["dump"] => (st, dumpStore st.store)
+  | ["allowed", z, a0, a1] =>
+    match optNat a0, optNat a1 with
+    | some a0, some a1 =>
+      let ks := st.store.allowed (z == "z") a0 a1
+      (st, "ok " ++ " ".intercalate (ks.map (fun (a, b) => s!"{a}:{b}")))
+    | _, _ => (st, "bad-op")
+  | ["pending"] =>
+      (st, "ok " ++ " ".intercalate (st.store.pendingKeys.map (fun (a, b) => s!"{a}:{b}")))
   | _ => (st, "bad-op")
 
 def step (st : DState) (line : String) : DState × String :=
